@@ -89,6 +89,8 @@ struct Row {
     last: u64,
     /// (index, state, exch_id)
     slots: Vec<(usize, char, u16)>,
+    /// (index, message counter of the pending retransmission)
+    retr: Vec<(usize, u32)>,
 }
 
 fn table(matter: &Matter<'_>) -> Vec<Row> {
@@ -103,6 +105,7 @@ fn table(matter: &Matter<'_>) -> Vec<Row> {
                     reserved: sn.reserved,
                     expired: sn.expired,
                     last: x.verif_last_use_ticks(),
+                    retr: sn.exchanges.iter().filter_map(|e| e.retrans_ctr.map(|c| (e.index, c))).collect(),
                     slots: sn
                         .exchanges
                         .iter()
@@ -391,6 +394,36 @@ fn run_d(ops: &str) -> String {
                     "none".into()
                 }
             }
+            "xk" => {
+                // the peer's stand-alone acknowledgement reaches an exchange that was dropped with its
+                // retransmission pending: afterwards nothing is pending on it
+                now = Some(num(3));
+                let id = num(1) as u32;
+                let xi = num(2) as usize;
+                let row = before.iter().find(|r| r.id == id);
+                let hit = row.and_then(|r| {
+                    let st = r.slots.iter().find(|(i, _, _)| *i == xi)?;
+                    let c = r.retr.iter().find(|(i, _)| *i == xi)?;
+                    if st.1 == 'R' { Some((st.2, c.1)) } else { None }
+                });
+                match hit {
+                    Some((exch_id, ctr)) => {
+                        rx_ctr += 1;
+                        let mut hdr = PacketHdr::new();
+                        hdr.plain.ctr = rx_ctr;
+                        hdr.proto.exch_id = exch_id;
+                        hdr.proto.proto_id = 0;
+                        hdr.proto.proto_opcode = 0x10;
+                        hdr.proto.set_ack(Some(ctr));
+                        matter.with_state(|s| {
+                            let x = s.verif_sessions().get(id).unwrap();
+                            let _ = x.verif_post_recv(&hdr);
+                        });
+                        "ok".into()
+                    }
+                    None => "none".into(),
+                }
+            }
             "xr" => {
                 // a datagram that opens a new exchange on an unsecured session (the first one the
                 // receive path matches: peer address, session id 0): post_recv, and on
@@ -483,9 +516,31 @@ fn run_d(ops: &str) -> String {
         let nlive = handles.keys().filter(|id| t.iter().any(|r| r.id == **id)).count();
         write!(out, "{}>{}#{}={} ", res, table_str(&t), nres, nlive).unwrap();
     }
+    // quiescence: the dropped-exchange sweeper runs until it finds nothing to do
+    {
+        let runner = matter.transport_runner(&crypto);
+        for _ in 0..(MAX_SESSIONS * 8 + 8) {
+            let idle = e2e::block_on(runner.verif_sweep_dropped_once()).unwrap_or(true);
+            let _ = matter.transport().reset();
+            if idle {
+                break;
+            }
+        }
+    }
+    let t = table(&matter);
+    let dl: usize = t.iter().map(|r| r.slots.iter().filter(|(_, st, _)| *st == 'A' || *st == 'R').count()).sum();
+    let mut fin = String::new();
+    for r in &t {
+        write!(fin, "{}{}[", r.id, r.mode).unwrap();
+        for (i, st, _) in &r.slots {
+            write!(fin, "{}{}", i, st).unwrap();
+        }
+        fin.push_str("];");
+    }
+    write!(out, "swept>{}", fin).unwrap();
     drop(exchanges);
     drop(handles);
-    format!("{} | ev={}", out.trim_end(), if monitor.is_empty() { "-" } else { &monitor })
+    format!("{} | ev={} dl={}", out.trim_end(), if monitor.is_empty() { "-" } else { &monitor }, dl)
 }
 
 /// a sender that loses everything
@@ -807,6 +862,10 @@ fn run_e(f: &[&str]) -> String {
         None => (0, 0),
     };
     let cancel_at: usize = field(f, "cx").parse().unwrap_or(0);
+    // `u=<n>`: n first handshake messages WITHOUT the reliability flag (no MRP ack requested)
+    let unreliable: usize = field(f, "u").parse().unwrap_or(0);
+    // `noresp=1`: no handler accepts anything until the snapshot is taken (then the responder starts)
+    let serve = Rc::new(core::cell::Cell::new(field(f, "noresp") != "1"));
     let quiet_wait: u32 = field(f, "qw").parse().unwrap_or(9000);
     let crypto = test_only_crypto();
     let det = e2e::dev_det(Some(40), Some(80));
@@ -866,9 +925,13 @@ fn run_e(f: &[&str]) -> String {
             let responder = &responder;
             let dev = &dev;
             let cancelled = cancelled.clone();
+            let serve = serve.clone();
             let mut cur: Option<BoxFut<'_, Result<(), Error>>> = Some(Box::pin(responder.run::<4>()));
             let mut polls = 0usize;
             runners.push(Box::pin(core::future::poll_fn(move |cx| {
+                if !serve.get() {
+                    return Poll::Pending; // re-polled with the other runners on every wake-up
+                }
                 if cancel_at > 0 && cancelled.get() == 0 && table(dev).iter().any(|r| r.reserved) {
                     polls += 1;
                     if polls >= cancel_at {
@@ -935,6 +998,22 @@ fn run_e(f: &[&str]) -> String {
                     net.inject(80 + j as u16 % 5, DEV, &b);
                 }
             }
+            // first handshake messages that do not ask for an acknowledgement: the tapped first
+            // datagram with the R flag cleared, a fresh counter and another source address
+            let first = net.tap().into_iter().find(|t| t.dst == DEV && t.idx == 0 && t.src < PROBE);
+            if let Some(t0) = first {
+                for j in 0..unreliable {
+                    let mut b = t0.bytes.clone();
+                    if b.len() > 8 {
+                        let c = u32::from_le_bytes([b[4], b[5], b[6], b[7]]).wrapping_add(5000 + j as u32);
+                        b[4..8].copy_from_slice(&c.to_le_bytes());
+                    }
+                    if let Some(off) = proto_offset(&b) {
+                        b[off] &= !0x04;
+                    }
+                    net.inject(85 + j as u16 % 5, DEV, &b);
+                }
+            }
             // wait until the device is quiet: no reserved slot, no exchange, three polls in a row
             let mut quiet = 0;
             let mut waited = 0u32;
@@ -955,6 +1034,7 @@ fn run_e(f: &[&str]) -> String {
                 dev.with_state(|s| s.verif_pase().verif_age_session_marker(61));
             }
             let snap = snapshot(&dev);
+            serve.set(true);
             if cancelled.get() == 0 {
                 // the cancellation point was not reached during the disturbance: it must not hit the probe
                 cancelled.set(2);
@@ -1010,10 +1090,10 @@ fn run_e(f: &[&str]) -> String {
     line
 }
 
-/// an unsecured MRP stand-alone acknowledgement (Secure Channel opcode 0x10)?
-fn is_standalone_ack(b: &[u8]) -> bool {
+/// offset of the protocol header of an unsecured datagram (session id 0)
+fn proto_offset(b: &[u8]) -> Option<usize> {
     if b.len() < 8 || b[1] != 0 || b[2] != 0 {
-        return false; // not session 0
+        return None; // not session 0
     }
     let mut off = 8;
     if b[0] & 0x04 != 0 {
@@ -1024,7 +1104,19 @@ fn is_standalone_ack(b: &[u8]) -> bool {
         2 => off += 2,
         _ => {}
     }
-    b.len() >= off + 6 && b[off + 1] == 0x10 && b[off + 4] == 0 && b[off + 5] == 0
+    if b.len() >= off + 6 {
+        Some(off)
+    } else {
+        None
+    }
+}
+
+/// an unsecured MRP stand-alone acknowledgement (Secure Channel opcode 0x10)?
+fn is_standalone_ack(b: &[u8]) -> bool {
+    match proto_offset(b) {
+        Some(off) => b[off + 1] == 0x10 && b[off + 4] == 0 && b[off + 5] == 0,
+        None => false,
+    }
 }
 
 // ------------------------------------------------------------------ dispatcher
@@ -1159,8 +1251,14 @@ fn gen_d(rng: &mut Rng, cap: usize, len: usize, style: u32) -> String {
                     let k = rng.below(g.exch.len() as u64) as usize;
                     g.exch.remove(k)
                 };
-                let fl = *rng.pick(&["00", "00", "01", "10", "11"]);
-                format!("xd:{}:{}:{}:{}", id, xi, fl, now)
+                let fl = *rng.pick(&["00", "00", "01", "10", "11", "10"]);
+                if fl == "10" && rng.chance(1, 2) {
+                    // dropped with the retransmission pending, then the peer's acknowledgement arrives
+                    clock += 1;
+                    format!("xd:{}:{}:{}:{},xk:{}:{}:{}", id, xi, fl, now, id, xi, clock)
+                } else {
+                    format!("xd:{}:{}:{}:{}", id, xi, fl, now)
+                }
             }
             _ => format!("s:{}", now),
         };
@@ -1228,6 +1326,11 @@ fn generate(tier: &str, seed: u64) -> Vec<String> {
         push(&mut cases, "D", n, "a:2,a:3,xa:0:0:4,xa:1:0:5,xd:1:0:01:6,xd:0:0:11:7,s:8,s:9,s:10".into());
         push(&mut cases, "D", n, "a:2,E:0,xa:0:0:3,xa:0:1:4,r:5,xa:1:1:6,xa:1:0:7,xd:1:0:00:8".into());
         push(&mut cases, "D", n, "a:2,xa:0:0:3,x:0,xd:0:0:00:5,a:6".into());
+        // a handler gone with its last message unacknowledged, then the acknowledgement arrives before
+        // the sweeper runs: the slot is Dropped with nothing pending and must still be swept
+        push(&mut cases, "D", n, "a:2,xa:0:0:3,xd:0:0:10:4,xk:0:0:5,s:6,e:7".into());
+        push(&mut cases, "D", n, "a:2,a:3,xa:0:0:4,xa:1:0:5,xd:0:0:10:6,xd:1:0:10:7,xk:1:0:8,xk:0:0:9,xk:0:0:10".into());
+        push(&mut cases, "D", n, "a:2,xa:0:0:3,xa:0:0:4,xd:0:1:11:5,xk:0:1:6,xk:0:0:7,e:8".into());
         // receive path: new exchanges on the first unsecured session; the sixth closes the session
         push(&mut cases, "D", n, "a:2,xr:3,xr:4,xr:5,xr:6,xr:7,xr:8,a:9,xr:10".into());
         push(&mut cases, "D", n, "r:2,a:3,E:1,xr:4,M:1:C,xr:5,a:6,xa:2:0:7,xr:8,xr:9".into());
@@ -1298,9 +1401,17 @@ fn generate(tier: &str, seed: u64) -> Vec<String> {
             e2e_cases.push((n, format!("k=P beh=f conc=0 g=0 j=0 age=1 cx={}", cx)));
             e2e_cases.push((n, format!("k=C beh=f conc=0 g=0 j=0 age=1 cx={}", cx)));
         }
+        // first handshake messages without the reliability flag while no handler accepts: accept time-out,
+        // the exchange is Dropped with nothing pending and must still be swept
+        for k in ["P", "C"] {
+            e2e_cases.push((n, format!("k={} beh=s1 conc=0 g=0 j=0 age=0 u={} noresp=1 ut=1", k, if n == 3 { 3 } else { 6 })));
+        }
+        e2e_cases.push((n, "k=P beh=s1 conc=0 g=0 j=0 age=0 u=2".into()));
         // the initiator acknowledges the answer and then falls silent: the handler's receive time-out (30 s + ladders)
         if n == 16 || thorough {
             e2e_cases.push((n, "k=P beh=a1 conc=0 g=0 j=0 age=0 qw=45000".into()));
+            // all four handlers busy (each waits for a Sigma3 that never comes) while unreliable Sigma1s arrive
+            e2e_cases.push((n, "k=C beh=a1.a1.a1.a1 conc=1 g=0 j=0 age=0 u=3 ut=1 qw=45000".into()));
         }
         if thorough {
             e2e_cases.push((n, "k=P beh=a2 conc=0 g=0 j=0 age=0 qw=45000".into()));
